@@ -93,6 +93,7 @@ def adjacency_statements():
         out += ["return %s;" % v, "switch (a) { case %s: ; }" % v if v[0] not in "*&+-(_s" and "a" != v and "\"" not in v and v not in ("!a", "~a") else "", "if (a) b; else %s;" % v, "do %s; while (%s);" % (v, v),
                 "while (%s) %s;" % (v, v), "for (%s; %s; %s) %s;" % (v, v, v, v), "if (%s) %s;" % (v, v), "l: %s;" % v, "{ %s; %s; }" % (v, v), "switch (%s) default: %s;" % (v, v)]
     out += ["__extension__ %s;" % e for e in EXT_OPERANDS] + ["{ __extension__ %s; }" % e for e in EXT_OPERANDS] + ["if (a) __extension__ %s; else __extension__ %s;" % (e, e) for e in EXT_OPERANDS[:12]]
+    out += ["__extension__ __extension__ f(a);", "if (a) __extension__ f(a); else __extension__ __extension__ f(a);", "__extension__ __extension__ a * b;", "__extension__ __extension__ int q;"]
     out += ["goto l;", "goto *p;", "goto * p;", "goto *&&l;", "goto * && l;", "return;", "do ; while (1);", "do do ; while (1); while (1);", "if (a) if (b) ; else ; else ;", "else_: ;" if False else "l: l2: ;",
             "switch (a) { case 1: case 2: case -3: case 'a': case 1 ... 2: default: ; }", "switch (a) { case 1 ... 0xe: ; }", "switch (a) { case 0xe ... 0xf: ; }", "switch (a) { case 'a' ... 'z': ; }"]
     return [o for o in out if o]
